@@ -7,6 +7,7 @@ from typing import Any, Optional, Union
 
 from lark import Lark, Token, Transformer, Tree  # type: ignore[import-untyped,unused-ignore]
 
+from scriptplan.core.exceptions import SemanticError
 from scriptplan.core.project import Project
 from scriptplan.core.resource import Resource
 from scriptplan.core.task import Task
@@ -1422,6 +1423,20 @@ class ModelBuilder:
                     # If A precedes B, then B depends on A
                     self._pending_precedes.append((obj, value))  # type: ignore[arg-type]
                 elif key == "allocate":
+                    # Several plain allocate statements add up to one team. The scheduler books
+                    # either the listed resources or their alternatives, all of them together:
+                    # an allocation with options next to another allocation cannot be expressed
+                    earlier = []
+                    for other in attributes:
+                        if other is attr:
+                            break
+                        if isinstance(other, tuple) and other[0] == "allocate":
+                            earlier.append(other)
+                    if earlier and (isinstance(value, dict) or any(isinstance(e[1], dict) for e in earlier)):
+                        raise SemanticError(
+                            f"Task {obj.fullId}: several allocate statements of which one has options "
+                            "(alternative, ...) are not supported; write the resources in one statement"
+                        )
                     # Set for all scenarios
                     for scIdx in range(obj.project.scenarioCount()):
                         obj[("allocate", scIdx)] = value
